@@ -64,7 +64,14 @@ OVERWRITE_ARGS = {
     'median': {'overwrite_input': 0}, 'percentile': {'overwrite_input': 0}, 'quantile': {'overwrite_input': 0},
     'lstsq': {'overwrite_a': 0, 'overwrite_b': 1}, 'inv': {'overwrite_a': 0}, 'lu_factor': {'overwrite_a': 0},
 }
-HOLDER_FUNCS = {'partial', 'diags', 'spdiags', 'dia_matrix', 'csr_matrix', 'csc_matrix', 'dia_array', 'csr_array',
+# in-place methods that modify the BUFFERS behind an object (ndarray / scipy.sparse), as opposed to container
+# operations (append, update, ...) that only change the container itself: for an object that keeps references to
+# arrays it was built from (sparse (data, indices, indptr) / (data, offsets) constructors do not copy) these write
+# through to those arrays
+DEEP_INPLACE_METHODS = {'sort', 'fill', 'resize', 'itemset', 'partition', 'put', 'setfield', 'byteswap', 'setdiag',
+                        'sort_indices', 'eliminate_zeros', 'sum_duplicates', 'prune', '__imul__', '__iadd__',
+                        '__isub__', '__itruediv__', '__setitem__'}
+HOLDER_FUNCS_OLD = {'partial', 'diags', 'spdiags', 'dia_matrix', 'csr_matrix', 'csc_matrix', 'dia_array', 'csr_array',
                 'csc_array', 'coo_matrix', 'identity', 'eye', 'kron', 'block_diag', 'interp1d', 'splrep', 'splu',
                 'factorized', 'lru_cache', 'wraps', 'product', 'chain', 'zip_longest', 'dia_object', 'csr_object',
                 'meshgrid', 'nditer', 'ndenumerate', 'broadcast', 'vectorize', 'frompyfunc', 'fit', 'groupby'}
@@ -73,6 +80,17 @@ FIRST_ARG_VIEW_FUNCS = {'reshape', 'transpose', 'swapaxes', 'moveaxis', 'rollaxi
                         'fliplr', 'flipud', 'rot90', 'require', 'asarray', 'asanyarray', 'ascontiguousarray',
                         'asfortranarray', 'asarray_chkfinite', 'ravel', 'tril', 'triu', 'real', 'imag',
                         'permute_dims', 'matrix_transpose', 'trim_zeros'}
+# constructors / functions whose RESULT may keep a reference to (a view of) their array arguments
+HOLDER_FUNCS = {'partial', 'spdiags', 'dia_matrix', 'csr_matrix', 'csc_matrix', 'bsr_matrix', 'coo_matrix',
+                'lil_matrix', 'dia_array', 'csr_array', 'csc_array', 'bsr_array', 'coo_array', 'lil_array',
+                'interp1d', 'splrep', 'splu', 'spilu', 'factorized', 'lru_cache', 'wraps', 'product', 'chain',
+                'zip_longest', 'meshgrid', 'nditer', 'ndenumerate', 'broadcast', 'vectorize', 'frompyfunc', 'fit',
+                'groupby', 'aslinearoperator', 'LinearOperator', 'BSpline', 'PPoly', 'memoryview', 'ix_', 'matrix',
+                'asmatrix', 'bmat', 'hstack_', 'tee', 'starmap', 'accumulate_'}
+# constructors that are known to COPY their array arguments (listed so that the choice is explicit)
+COPYING_FUNCS = {'diags', 'diags_array', 'identity', 'eye', 'kron', 'kronsum', 'block_diag', 'hstack', 'vstack',
+                 'concatenate', 'stack', 'column_stack', 'pad', 'copy', 'full', 'full_like', 'zeros_like', 'ones_like',
+                 'empty_like', 'tile', 'repeat', 'sort', 'take', 'where', 'interp', 'polyvander', 'polyvander2d'}
 SETUPS_W = {'_setup_whittaker': 3, '_setup_polynomial': None, '_setup_spline': None, '_setup_classification': 2}
 
 
@@ -648,6 +666,9 @@ class Tr:
         everything = allv[0] | allv[1]
         if attr in INPLACE_METHODS:
             self.write_through(out, recv[0], line)
+            if attr in DEEP_INPLACE_METHODS:
+                # the arrays the object was built from (sparse constructors keep references)
+                self.write_through(out, recv[1], line)
         if attr in STORING_METHODS:
             self.store_into(out, recv, allv)
         if attr in SHALLOW_COPY_METHODS:
@@ -1022,6 +1043,9 @@ class Tr:
             elif isinstance(t, ast.Name):
                 # in place for arrays (and lists): a write through the name
                 out.append(('write', t.id, line, None))
+                if t.id not in self.arrays:
+                    # `A *= 2` on a sparse matrix / `A += B`: modifies the arrays A holds
+                    out.append(('write', cont(t.id), line, None))
                 self.store_into(out, ({t.id}, set()), val)
             elif isinstance(t, ast.Subscript):
                 self.ev_index(t.slice, out)
@@ -1623,14 +1647,27 @@ def gen(repo):
              'Open Scope string_scope.',
              '']
     names = []
+    wnames = []
     nwrites = 0
+    # every persistent name that may denote a caller-owned object when a call starts
+    cn = set(['self.*'])
+    for fn in fns:
+        cn |= {n for n, src in entry_env(fn, world).items() if n.startswith('self.') and src}
+    cn = sorted(cn)
+    lines.append('(* persistent names (attributes of `self`, and what they hold) that may denote caller-owned objects across')
+    lines.append('   calls; every write-site body treats all of them that it mentions as caller-owned on entry *)')
+    lines.append('Definition caller_names : list name := [' + '; '.join(q(n) for n in cn) + '].')
+    lines.append('')
 
-    def emit(ident, label, tainted, code):
-        if not tainted and 'SUnknown' not in code and 'RUnknown' not in code:
+    def emit(ident, label, tainted, code, write_body=False):
+        if not write_body and not tainted and 'SUnknown' not in code and 'RUnknown' not in code:
             return      # nothing can be tainted: trivially accepted
-        lines.append(f'Definition {ident} : body := {{| b_name := {q(label)}; b_tainted := ['
-                     + '; '.join(q(t) for t in tainted) + f']; b_code := {code} |}}.')
-        names.append(ident)
+        tl = '[' + '; '.join(q(t) for t in tainted) + ']'
+        if write_body:
+            wnames.append(ident)
+        else:
+            names.append(ident)
+        lines.append(f'Definition {ident} : body := {{| b_name := {q(label)}; b_tainted := {tl}; b_code := {code} |}}.')
 
     def tainted_of(fn, claimed):
         env = entry_env(fn, world)
@@ -1641,9 +1678,9 @@ def gen(repo):
     known_bad = []
     for i, fn in enumerate(registered):
         nwrites += count_ir(fn.ir, ('write',))
-        emit(f'm{i}', fn.qual, tainted_of(fn, frozenset()), coq_stmt(fn.ir, 'w'))
-        if fn.qual in KNOWN_FINDING_BODIES and fn.Wreg and names and names[-1] == f'm{i}':
-            known_bad.append(names.pop())
+        emit(f'm{i}', fn.qual, tainted_of(fn, frozenset()), coq_stmt(fn.ir, 'w'), True)
+        if fn.qual in KNOWN_FINDING_BODIES and fn.Wreg:
+            known_bad.append(wnames.pop())
         # the `params` object a body returns: claimed sources, re-checked
         code = coq_stmt(fn.ir, 'R1')
         if code != 'SSkip':
@@ -1652,12 +1689,13 @@ def gen(repo):
     # helpers: claimed summaries, re-checked: nothing outside the claimed sources is written / returned
     for i, fn in enumerate(helpers):
         if any(s == '%unknown' for s, _ in fn.W):
-            emit(f'h{i}w', fn.qual + ' [unrecognised statement or write through an unknown (caller-owned) object]', tainted_of(fn, frozenset()), coq_stmt(fn.ir, 'w'))
+            emit(f'h{i}w', fn.qual + ' [unrecognised statement or write through an unknown (caller-owned) object]', tainted_of(fn, frozenset()), coq_stmt(fn.ir, 'w'), True)
             continue
         wsrc = frozenset(s for s, _ in fn.W)
         code = coq_stmt(fn.ir, 'w')
         if code != 'SSkip' and count_ir(fn.ir, ('write', 'unknown', 'assertfresh')):
-            emit(f'h{i}w', fn.qual + ' [writes only ' + ','.join(sorted(wsrc)) + ']', tainted_of(fn, wsrc), code)
+            emit(f'h{i}w', fn.qual + ' [writes only ' + ','.join(sorted(wsrc)) + ']', tainted_of(fn, wsrc), code,
+                 'self.*' not in wsrc)
             nwrites += count_ir(fn.ir, ('write',))
         for mode, claimed in (('A', fn.A), ('AC', fn.AC)) + ((('P1', fn.P1),) if fn.ret2 else ()):
             code = coq_stmt(fn.ir, mode)
@@ -1665,11 +1703,29 @@ def gen(repo):
                 emit(f'h{i}{mode.lower()}', fn.qual + f' [returns{" containers of" if mode == "AC" else (" as 2nd element" if mode == "P1" else "")} only '
                      + ','.join(sorted(claimed)) + ']', tainted_of(fn, frozenset(claimed) | {'%unknown'}), code)
     lines.append('')
-    lines.append('Definition bodies : list body := [' + '; '.join(names) + '].')
+    lines.append('(* the write-site bodies: registered methods, helpers, decorator closures *)')
+    lines.append('Definition write_bodies : list body := [' + '; '.join(wnames) + '].')
+    lines.append('(* re-checks of the claimed return summaries (and of helpers that claim to write through what self holds) *)')
+    lines.append('Definition summary_bodies : list body := [' + '; '.join(names) + '].')
+    lines.append('Definition bodies : list body := write_bodies ++ summary_bodies.')
     lines.append('Definition known_bad : list body := [' + '; '.join(known_bad) + '].')
-    lines.append('(* the write-site bodies (registered methods, helpers): without the return-summary checks *)')
-    lines.append('Definition write_bodies : list body := [' + '; '.join(
-        n for n in names if n.endswith('w') or (n.startswith('m') and n[1:].isdigit())) + '].')
+    lines.append('(* LIBRARY TABLE (trusted): how NumPy / SciPy / stdlib callables are treated by the translator.')
+    lines.append('   Anything not listed: a lower-case function returns a new array/scalar and writes none of its inputs unless')
+    lines.append('   out=/output=/overwrite_* is given; a Capitalised callable is a constructor that may keep its arguments. *)')
+    lines.append('Definition library_table : list (string * list string) := [')
+    tab = [('returns a view of / the object given as FIRST argument', sorted(FIRST_ARG_VIEW_FUNCS)),
+           ('may return a view of ANY argument', sorted(VIEW_FUNCS - FIRST_ARG_VIEW_FUNCS)),
+           ('result may KEEP A REFERENCE to its array arguments (contents alias the arguments)', sorted(HOLDER_FUNCS)),
+           ('copies its array arguments (result is new)', sorted(COPYING_FUNCS)),
+           ('writes its first argument in place', sorted(INPLACE_FUNCS)),
+           ('method: modifies the receiver object', sorted(INPLACE_METHODS)),
+           ('method: also writes the arrays the receiver was built from', sorted(DEEP_INPLACE_METHODS)),
+           ('method: stores its arguments in the receiver', sorted(STORING_METHODS)),
+           ('method: may return a view / element of the receiver', sorted(VIEW_METHODS)),
+           ('method: returns a new object holding the same elements', sorted(SHALLOW_COPY_METHODS)),
+           ('overwrite_* flag -> positional argument written', sorted(f'{k}:{a}->{p}' for k, d in OVERWRITE_ARGS.items() for a, p in d.items()))]
+    lines.append(';\n'.join('  (' + q(k) + ', [' + '; '.join(q(x) for x in v) + '])' for k, v in tab))
+    lines.append('].')
     lines.append('(* attributes (obj.attr = ...) proven to hold only library-allocated buffers at every binding: *)')
     lines.append('Definition fresh_attrs : list string := [' + '; '.join(q(a) for a in WORLD_INFO['fresh_attrs']) + '].')
     lines.append('(* attributes that may hold a caller-owned buffer across calls: treated as caller-owned in every body *)')
